@@ -234,8 +234,12 @@ def derive_rnd(plan, seed: int) -> dict:
     return rnd
 
 
-def ref_encrypt(plan, seed: int = 0, spelling=("canonical", 0), additions_in_protected: bool | None = None, zip_level=None, raw_zip=None):
+def ref_encrypt(plan, seed: int = 0, spelling=("canonical", 0), additions_in_protected: bool | None = None, zip_level=None, raw_zip=None,
+                iv_zero_prefix: int = 0):
     rnd = derive_rnd(plan, seed)
+    if iv_zero_prefix:
+        # a sender with a counter-based nonce: the IV starts with zero octets
+        rnd["iv"] = bytes(iv_zero_prefix) + rnd["iv"][iv_zero_prefix:]
     pt = bytes.fromhex(plan["plaintext_hex"])
     aad = None if plan["aad_hex"] is None else bytes.fromhex(plan["aad_hex"])
     protected = copy.deepcopy(plan["protected"])
